@@ -18,6 +18,13 @@ Driver for C16.
 
   c16 deco <function|instance|partial|builtin|boundmethod|class|staticmethod>
    -> ok <ok|AttributeError|TypeError>
+
+  c16 tl <program> <clock>
+      program comma-separated prefix code:  nd (Ref kind)… Prog out     (the decorator-level Timer objects 0..nd-1, then the program)
+              Prog := n Stmt… ;  Stmt := L up LArgs | D d LArgs | W Ref kind sw Prog out | F d sw Prog out ;
+              LArgs := np v… nk name val… ;  Ref := p m | P m nn name… | c m nv v… ;  out := r v | x id cls
+   -> ok <outcome> <observations oldest first ref:kind:d> <block outcomes oldest first> <_metric of the decorator-level Timers>
+      a ref is written p.m / P.m.names… / c.m.values…
 -/
 namespace PromVerif.Drv.C16
 open PromVerif PromVerif.Wire PromVerif.Model.Wrappers PromVerif.Spec.Wrappers
@@ -197,8 +204,124 @@ def runDeco (kind : String) : String :=
     | .error .attributeError => "ok AttributeError"
     | .error .typeError => "ok TypeError"
 
+/-! `Timer.labels` programs -/
+
+def pRef : List String → Option (MRef × List String)
+  | "p" :: m :: r => m.toNat?.map (fun m => (.plain m, r))
+  | "P" :: m :: n :: r => do
+    let m ← m.toNat?
+    let n ← n.toNat?
+    let (ns, r') ← pNats n r
+    pure (.parent m ns, r')
+  | "c" :: m :: n :: r => do
+    let m ← m.toNat?
+    let n ← n.toNat?
+    let (vs, r') ← pNats n r
+    pure (.child m vs, r')
+  | _ => none
+
+def pairUp : List Nat → List (Nat × Nat)
+  | a :: b :: r => (a, b) :: pairUp r
+  | _ => []
+
+def pLArgs : List String → Option (LArgs × List String)
+  | np :: r => do
+    let np ← np.toNat?
+    let (ps, r1) ← pNats np r
+    match r1 with
+    | nk :: r2 => do
+      let nk ← nk.toNat?
+      let (ks, r3) ← pNats (2 * nk) r2
+      pure (⟨ps, pairUp ks⟩, r3)
+    | [] => none
+  | [] => none
+
+def kindTok (k : String) : TimeKind := if k == "0" then .set else .observe
+
+mutual
+  def pStmt : Nat → List String → Option (LStmt × List String)
+    | 0, _ => none
+    | _ + 1, "L" :: up :: r => do
+      let up ← up.toNat?
+      let (a, r1) ← pLArgs r
+      pure (.labels up a, r1)
+    | _ + 1, "D" :: d :: r => do
+      let d ← d.toNat?
+      let (a, r1) ← pLArgs r
+      pure (.labelsDeco d a, r1)
+    | fuel + 1, "W" :: r => do
+      let (ref, r1) ← pRef r
+      match r1 with
+      | k :: sw :: r2 => do
+        let (p, r3) ← pProg fuel r2
+        let (o, r4) ← pOut r3
+        pure (.block (.withTime ref (kindTok k)) p o (sw == "1"), r4)
+      | _ => none
+    | fuel + 1, "F" :: d :: sw :: r => do
+      let d ← d.toNat?
+      let (p, r1) ← pProg fuel r
+      let (o, r2) ← pOut r1
+      pure (.block (.callDeco d) p o (sw == "1"), r2)
+    | _, _ => none
+  def pProg : Nat → List String → Option (LProg × List String)
+    | 0, _ => none
+    | fuel + 1, n :: r => do
+      let n ← n.toNat?
+      pStmts fuel n r
+    | _, [] => none
+  def pStmts : Nat → Nat → List String → Option (LProg × List String)
+    | 0, _, _ => none
+    | _ + 1, 0, r => some (.nil, r)
+    | fuel + 1, n + 1, r => do
+      let (s, r1) ← pStmt fuel r
+      let (p, r2) ← pStmts fuel n r1
+      pure (.cons s p, r2)
+end
+
+def pDecos : Nat → List String → Option (List TimerObj × List String)
+  | 0, r => some ([], r)
+  | n + 1, r => do
+    let (ref, r1) ← pRef r
+    match r1 with
+    | k :: r2 => do
+      let (ds, r3) ← pDecos n r2
+      pure (⟨ref, kindTok k⟩ :: ds, r3)
+    | [] => none
+
+def encRef : MRef → String
+  | .plain m => s!"p.{m}"
+  | .parent m ns => ".".intercalate (["P", toString m] ++ ns.map toString)
+  | .child m vs => ".".intercalate (["c", toString m] ++ vs.map toString)
+
+def encLObs (o : LObs) : String :=
+  let k := match o.kind with | .set => 0 | .observe => 1
+  s!"{encRef o.ref}:{k}:{o.dur}"
+
+def runTl (prog clock : String) : String :=
+  let toks := prog.splitOn ","
+  match toks, decInts clock with
+  | nd :: rest, some cl =>
+    match nd.toNat? with
+    | none => "err bad-field"
+    | some nd =>
+      match pDecos nd rest with
+      | none => "err bad-field"
+      | some (ds, r1) =>
+        match pProg (toks.length + 1) r1 with
+        | some (p, r2) =>
+          match pOut r2 with
+          | some (o, []) =>
+            let s0 : LSt := ⟨⟨cl, 0⟩, [], fun i => ds.getD i ⟨.plain 0, .observe⟩, ds.length, []⟩
+            let r := execProg [] p o s0
+            let decos := encList ((List.range ds.length).map (fun i => encRef (r.2.timers i).metric))
+            s!"ok {encOut r.1} {encList (r.2.obs.reverse.map encLObs)} {encList (r.2.log.reverse.map encOut)} {decos}"
+          | _ => "err bad-field"
+        | none => "err bad-field"
+  | _, _ => "err bad-field"
+
 def handle : List String → String
   | ["exec", tree, clock, gauges, nc, nobs] => runExec tree clock gauges nc nobs
+  | ["tl", prog, clock] => runTl prog clock
   | ["sig", spec, call] => runSig spec call
   | ["deco", kind] => runDeco kind
   | _ => "err bad-op"
